@@ -28,16 +28,29 @@ inserts under the root's key (`C03_first_iteration_only_root_inserts`, unconditi
     `C03_search_keeps_eval_range`), the repetition draw is 0 — so alpha is raised, a best move exists and the root call ends
     with an insert under the root's key;
 (c) the entry's move is legal in the root (C03 `TTInv`), so the walked line is not empty and `BestMove` is emitted;
-(d) the first iteration cannot be interrupted (a worker counts at most `1 + #legal moves < 10000` nodes and the flag is
-    only read at multiples of 10000) and does not panic (C04).
+(d) the first iteration cannot be interrupted (a worker counts at most `1 + #legal moves ≤ 4099 < 10000` nodes —
+    `legalMoves_few` — and the flag is only read at multiples of 10000) and does not panic (C04).
 
-Contents: the memory invariant `MemOK` (fresh: `MemOK.fresh`; kept by every search: `MemOK.iterate`);
-`C03_first_iteration_only_root_inserts`; `C03_first_root_entry_kept`; `C03_at_least_one_report` (= the full statement
-`C03_report_always_statement`); `C03_report_session` (every search of every history of searches on one memory reports);
-`C07_writer_exactly_one_always`; the evaluation bound from a condition decidable on the root
-(`EvalBelowMate_of_potential`, `C03_at_least_one_report_of_potential`); the limit of the statement
-(`C03_no_report_overmaterial`: with static evaluations ≥ `mate_in_ply(0)` a search of a non-terminal root reports nothing);
-non-vacuity examples.
+Contents
+* the memory invariant `MemOK` (fresh: `MemOK.fresh`; kept by every search: `MemOK.iterate`, under every schedule:
+  `MemOK.searchS`);
+* `C03_first_iteration_only_root_inserts` (sequential model) and `…_any_schedule` (every interleaving);
+* `C03_first_root_entry_kept`; `C03_at_least_one_report` (= the full statement `C03_report_always_statement`);
+  `C03_report_session` (every search of every history of searches on one memory reports);
+  `C03_at_least_one_report_any_schedule` (every outcome of `SearchS`);
+* `C07_writer_exactly_one_always`, `C07_writer_exactly_one_any_schedule` (exactly one `bestmove` line per search),
+  `C07_session_exactly_one_always` (whole sessions: the number of `bestmove` lines EQUALS the number of `go` lines);
+* the evaluation bound from a condition decidable on the root (`EvalBelowMate_of_potential`,
+  `C03_at_least_one_report_of_potential`);
+* the limit of the statement — a defect of the engine on over-material positions (`C03_no_report_overmaterial`: with static
+  evaluations `≥ mate_in_ply(0)` a search of a legal non-terminal root reports nothing; replayed on the real binary);
+* non-vacuity examples for every theorem.
+
+Hypotheses that remain, and why: `EvalBelowMate R` (cannot be dropped: the counterexample; derived for roots with a
+promotion potential `≤ 10000` a side; for the initial position — potential 10400 — it stays a hypothesis: the best proved
+bound `|score| ≤ 0.95·|material| + 1450` gives 11330 there, above `mate_in_ply(0)` = 11000); `CollisionFree` (the content of
+"up to 64-bit chance"); at least one worker in the first iteration (with none nothing is searched); depth limit `≥ 1`
+(`go depth 0` owes no report) and, for the preservation of the memory invariant only, `≤ 10^9` (plies below `2^31`).
 -/
 namespace Wee
 open Wee.Search
@@ -91,6 +104,16 @@ theorem MemOK.iterate {R : State → Prop} (hR : Region R) (hE : EvalBelowMate R
   · rw [hk]; exact h.cf
   · rw [hk]; exact htt
   · exact iterate_evalIn hR hE root hroot art h.cf h.tinv h.evals rng0 maxDepth workersOf cancelAt fuelDepth hlim
+
+/-- **C03_search_keeps_eval_range** (the evaluation-range component of `MemOK.iterate`, stated alone): under `EvalBelowMate`,
+with collision-free keys and an incoming table satisfying the C03 invariant and `EvalIn`, the table of the artifact handed
+back satisfies `EvalIn` — for every seed, depth limit `≤ 10^9`, worker counts, cancellation instant. -/
+theorem C03_search_keeps_eval_range {R : State → Prop} (hR : Region R) (hE : EvalBelowMate R) (root : State)
+    (hroot : R root) (art : Artifact) (hcf : CollisionFree art.keys.keys R) (htt : TInv art.keys.keys R art.tt)
+    (hin : EvalIn art.tt) (rng0 : Rng.ChaCha8) (maxDepth : Option Nat) (workersOf : Nat → Nat) (cancelAt : Option Nat)
+    (fuelDepth : Nat) (hlim : maxDepth.getD fuelDepth ≤ 1000000000) :
+    EvalIn (iterate root rng0 maxDepth art workersOf cancelAt fuelDepth).artifact.tt :=
+  iterate_evalIn hR hE root hroot art hcf htt hin rng0 maxDepth workersOf cancelAt fuelDepth hlim
 
 /-! ## the first iteration only writes under the root's key -/
 
@@ -150,23 +173,25 @@ theorem C03_first_iteration_root_key (root : State) (rng0 : Rng.ChaCha8) (art : 
 
 /-- **C03_first_root_entry_kept**: the hypothesis `FirstRootEntryKept` of `C03_at_least_one_report_partial` HOLDS for any
 incoming memory satisfying `MemOK`, any number `≥ 1` of workers in the first iteration, any seed, any cancellation
-instant, any history — for a root with at least one and fewer than 9999 legal moves in a region with `EvalBelowMate`. -/
+instant, any history — for a root with at least one legal move in a region with `EvalBelowMate`.  (That the root has fewer
+than `pollInterval - 1 = 9999` legal moves, which the earlier theorems `C07_report_any_cancel` … carried as a hypothesis, is
+now a lemma: `legalMoves_few`, at most `64·64 + 2` moves in every legal position.) -/
 theorem C03_first_root_entry_kept {R : State → Prop} (hR : Region R) (hE : EvalBelowMate R) (root : State)
-    (hroot : R root) (hmoves : legalMoves root ≠ []) (hfew : (legalMoves root).length + 1 < Gen.pollInterval)
+    (hroot : R root) (hmoves : legalMoves root ≠ [])
     (art : Artifact) (hmem : MemOK R art) (rng0 : Rng.ChaCha8) (workersOf : Nat → Nat) (hw : 0 < workersOf 0)
     (cancelAt : Option Nat) : FirstRootEntryKept root rng0 art workersOf cancelAt := by
   obtain ⟨nT, nB, hT, hB, hinv⟩ := hmem.tinv.1
-  exact (first_root_entry_kept_always hR hE root hroot hmoves hfew art nT nB hT hB hmem.depth hinv
+  exact (first_root_entry_kept_always hR hE root hroot hmoves
+    (legalMoves_few root (hR.good root hroot).1 (hR.good root hroot).2) art nT nB hT hB hmem.depth hinv
     (hmem.prioritized root hroot) hmem.evals rng0 workersOf cancelAt (Or.inl hw)).1
 
 /-- **Full statement of D, for any memory and any workers** (the strengthening of `C03_report_statement`): for every region
-`R` with `EvalBelowMate`, every root of `R` with at least one (and fewer than 9999) legal moves, every incoming artifact
+`R` with `EvalBelowMate`, every root of `R` with at least one legal move, every incoming artifact
 satisfying `MemOK` — fresh or left by any earlier searches —, every seed, every depth limit `≥ 1` (a number, or none with
 `fuelDepth ≥ 1`), every worker-count function with at least one worker in the first iteration, every cancellation
 instant: the search does not panic and reports at least one `BestMove`, whose line is non-empty and legal from the root. -/
 def C03_report_always_statement : Prop :=
   ∀ (R : State → Prop), Region R → EvalBelowMate R → ∀ (root : State), R root → legalMoves root ≠ [] →
-  (legalMoves root).length + 1 < Gen.pollInterval →
   ∀ (art : Artifact), MemOK R art →
   ∀ (rng0 : Rng.ChaCha8) (maxDepth : Option Nat) (fuelDepth : Nat), 1 ≤ maxDepth.getD fuelDepth →
   ∀ (workersOf : Nat → Nat), 0 < workersOf 0 → ∀ (cancelAt : Option Nat),
@@ -176,16 +201,16 @@ def C03_report_always_statement : Prop :=
 /-- **C03_at_least_one_report.**  The full statement holds: `FirstRootEntryKept` is no longer a hypothesis, the memory may be
 re-used, the first iteration may have any number of workers, `Stop` may arrive at any moment, and "does not panic" is a
 conclusion (C04), not a hypothesis.  What remains is the domain of the property: the root has a legal move (a terminal
-root is not searched, F2) and fewer than 9999 of them (chess positions have at most 218), the depth limit is at least 1
+root is not searched, F2), the depth limit is at least 1
 (`go depth 0` owes no report), there is at least one worker, and static evaluations of the region stay strictly below
 `mate_in_ply(0)` in absolute value (`EvalBelowMate`; derived from a decidable condition on the root in
 `C03_at_least_one_report_of_potential`; it cannot be dropped: `C03_no_report_overmaterial`). -/
 theorem C03_at_least_one_report : C03_report_always_statement := by
-  intro R hR hE root hroot hmoves hfew art hmem rng0 maxDepth fuelDepth hlim workersOf hw cancelAt
+  intro R hR hE root hroot hmoves art hmem rng0 maxDepth fuelDepth hlim workersOf hw cancelAt
   obtain ⟨nT, nB, hT, hB, hinv⟩ := hmem.tinv.1
   have hnp := (SearchCtl.iterate_safe root rng0 maxDepth art workersOf cancelAt fuelDepth nT nB hT hB
     SearchCtl.capturesShrink (hR.good root hroot) hmem.depth hinv (hmem.prioritized root hroot)).1
-  have hkept := C03_first_root_entry_kept hR hE root hroot hmoves hfew art hmem rng0 workersOf hw cancelAt
+  have hkept := C03_first_root_entry_kept hR hE root hroot hmoves art hmem rng0 workersOf hw cancelAt
   have hlim' : 1 ≤ (match maxDepth with | some d => d | Option.none => fuelDepth) := by
     cases maxDepth <;> exact hlim
   exact ⟨hnp, C03_at_least_one_report_partial hR root hroot art hmem.cf hmem.tinv rng0 maxDepth workersOf cancelAt
@@ -193,11 +218,11 @@ theorem C03_at_least_one_report : C03_report_always_statement := by
 
 /-- the first of these reports comes from the first iteration: it is already among the events of the first `iterStep` -/
 theorem C03_first_iteration_reports {R : State → Prop} (hR : Region R) (hE : EvalBelowMate R) (root : State)
-    (hroot : R root) (hmoves : legalMoves root ≠ []) (hfew : (legalMoves root).length + 1 < Gen.pollInterval)
+    (hroot : R root) (hmoves : legalMoves root ≠ [])
     (art : Artifact) (hmem : MemOK R art) (rng0 : Rng.ChaCha8) (workersOf : Nat → Nat) (hw : 0 < workersOf 0)
     (cancelAt : Option Nat) :
     ∃ ev line, Event.best ev line ∈ (iterate root rng0 (some 1) art workersOf cancelAt).events :=
-  let ⟨ev, line, h, _⟩ := (C03_at_least_one_report R hR hE root hroot hmoves hfew art hmem rng0 (some 1) 64
+  let ⟨ev, line, h, _⟩ := (C03_at_least_one_report R hR hE root hroot hmoves art hmem rng0 (some 1) 64
     (Nat.le_refl _) workersOf hw cancelAt).2
   ⟨ev, line, h⟩
 
@@ -223,14 +248,14 @@ theorem sessionOut_session : ∀ (qs : List SearchReq) (art : Artifact),
 seeds, worker counts and cancellation instants and depth limits `≤ 10^9`, run one after the other on the memory handed on
 from one to the next — starting from ANY memory satisfying `MemOK`, e.g. a fresh one.  Then for EVERY search of the
 history: it does not panic; it hands back a memory satisfying `MemOK` (so the invariant holds for every history of
-searches); every line it reports is non-empty and legal from its root; and if its root has a legal move (fewer than 9999),
+searches); every line it reports is non-empty and legal from its root; and if its root has a legal move,
 its depth limit is at least 1 and it has at least one worker in its first iteration, it reports at least once. -/
 theorem C03_report_session {R : State → Prop} (hR : Region R) (hE : EvalBelowMate R) (qs : List SearchReq) :
     ∀ (art : Artifact), MemOK R art → (∀ q ∈ qs, R q.root ∧ q.maxDepth.getD q.fuelDepth ≤ 1000000000) →
       ∀ p ∈ sessionOut art qs,
         p.2.panic = Option.none ∧ MemOK R p.2.artifact ∧
         (∀ ev line, Event.best ev line ∈ p.2.events → line ≠ [] ∧ LineLegal p.1.root line) ∧
-        (legalMoves p.1.root ≠ [] → (legalMoves p.1.root).length + 1 < Gen.pollInterval →
+        (legalMoves p.1.root ≠ [] →
           1 ≤ p.1.maxDepth.getD p.1.fuelDepth → 0 < p.1.workersOf 0 → ∃ ev line, Event.best ev line ∈ p.2.events) := by
   induction qs with
   | nil => intro art _ _ p hp; cases hp
@@ -239,12 +264,697 @@ theorem C03_report_session {R : State → Prop} (hR : Region R) (hE : EvalBelowM
     obtain ⟨hq, hqd⟩ := hqs q List.mem_cons_self
     obtain ⟨hnp, hk, hmem'⟩ := MemOK.iterate hR hE q.root hq art hmem q.rng0 q.maxDepth q.workersOf q.cancelAt q.fuelDepth hqd
     rcases List.mem_cons.1 hp with rfl | hp
-    · refine ⟨hnp, hmem', ?_, fun hm hf hl hw => ?_⟩
+    · refine ⟨hnp, hmem', ?_, fun hm hl hw => ?_⟩
       · exact C03_reported_lines_legal hR q.root hq art hmem.cf hmem.tinv q.rng0 q.maxDepth q.workersOf q.cancelAt
           q.fuelDepth
-      · obtain ⟨_, ev, line, h, _⟩ := C03_at_least_one_report R hR hE q.root hq hm hf art hmem q.rng0 q.maxDepth
+      · obtain ⟨_, ev, line, h, _⟩ := C03_at_least_one_report R hR hE q.root hq hm art hmem q.rng0 q.maxDepth
           q.fuelDepth hl q.workersOf hw q.cancelAt
         exact ⟨ev, line, h⟩
     · exact ih _ hmem' (fun q' hq' => hqs q' (List.mem_cons_of_mem _ hq')) p hp
 
 end Wee
+
+/-! ## the evaluation bound from a condition decidable on the root -/
+
+namespace Wee
+open Wee.Search
+open Wee.C10 (DisjointBoard)
+
+/-- the four possible values of `Evaluator::evaluate`, from any perspective (the heuristic sum is clamped to
+`[NEG_INF + 1, POS_INF - 1]` since the repair of F10) -/
+theorem evaluate_values {s : State} {p : Color} {d : Nat} {e : Eval} (h : evaluate s p d = some e) :
+    e = - Ev.mateInPly d ∨ e = Ev.mateInPly d ∨ e = 0 ∨ e = clampHeuristic (evalHeuristic (Variation.of s) p) := by
+  unfold evaluate at h
+  cases hk : kingHasMove s with
+  | none => rw [hk] at h; cases h
+  | some khm =>
+    rw [hk] at h
+    simp only at h
+    by_cases hc : (!khm || s.isCheck) = true
+    · rw [if_pos hc] at h
+      cases hl : legalMoves? s with
+      | none => rw [hl] at h; cases h
+      | some ms =>
+        rw [hl] at h
+        simp only at h
+        by_cases h1 : (ms.isEmpty && s.isCheck) = true
+        · rw [if_pos h1] at h
+          cases Option.some.inj h
+          split
+          · exact Or.inl rfl
+          · exact Or.inr (Or.inl rfl)
+        · rw [if_neg h1] at h
+          by_cases h2 : ms.isEmpty = true
+          · rw [if_pos h2] at h; exact Or.inr (Or.inr (Or.inl (Option.some.inj h).symm))
+          · rw [if_neg h2] at h; exact Or.inr (Or.inr (Or.inr (Option.some.inj h).symm))
+    · rw [if_neg hc] at h; exact Or.inr (Or.inr (Or.inr (Option.some.inj h).symm))
+
+/-- a mate score at a ply `1 ≤ d < 2^31` is at most `mate_in_ply(1) = 10900` -/
+theorem mateInPly_le {d : Nat} (h1 : 1 ≤ d) (h2 : d < 2^31) : 10000 ≤ Ev.mateInPly d ∧ Ev.mateInPly d ≤ 10900 := by
+  rw [C05.mateInPly_eq, C05.plyAsI32_small h2]
+  constructor
+  · show (10000 : Int) ≤ 10000 + _; omega
+  · show (10000 : Int) + _ ≤ 10900; omega
+
+/-- **The root condition**: each side has at most 16 men and a promotion potential
+`phi = 900·pawns + 300·knights + 350·bishops + 500·rooks + 900·queens` of at most 10000 (every pawn counted as a queen).
+Decidable on the position; it is inherited by every position reachable by legal moves (`C05_potential_monotone`).  It is
+weaker than C06's `RootBounded` (potential below 9000).  The start position (potential 10400 a side) does not satisfy
+it; a position after the exchange of, say, a knight and a pawn of each side does. -/
+def PotentialOK (s : State) : Prop := (∀ c, men s c ≤ 16) ∧ (∀ c, phi s c ≤ 10000)
+
+instance (s : State) : Decidable (PotentialOK s) := by
+  unfold PotentialOK
+  have : ∀ (P : Color → Prop) [∀ c, Decidable (P c)], Decidable (∀ c, P c) := fun P _ =>
+    decidable_of_iff (P .white ∧ P .black) ⟨fun h c => by cases c <;> simp [h.1, h.2], fun h => ⟨h _, h _⟩⟩
+  infer_instance
+
+/-- the legal positions (no stacked pieces) that satisfy the root condition -/
+def PotRegion (s : State) : Prop := LegalPos s = true ∧ DisjointBoard s.pieces ∧ PotentialOK s
+
+/-- they form a region: closed under listed legal moves -/
+theorem potRegion_region : Region PotRegion := by
+  refine ⟨fun s h => ⟨h.1, h.2.1⟩, fun s h r hr => ?_⟩
+  obtain ⟨hl, hd, hmen, hphi⟩ := h
+  refine ⟨C02_closed s hl hd r hr, (C02_successor_invariants s hl hd r hr).1, fun c => ?_, fun c => ?_⟩
+  · exact Nat.le_trans (C06.C05_potential_monotone s hl hd r hr c).2 (hmen c)
+  · exact Nat.le_trans (C06.C05_potential_monotone s hl hd r hr c).1 (hphi c)
+
+/-- the material difference is bounded by the larger potential -/
+theorem materialDiff_le_potential (s : State) (c : Color) (hk : C05.OneKingEach s) (hphi : ∀ c, phi s c ≤ 10000) :
+    -10000 ≤ C05.materialDiff s c ∧ C05.materialDiff s c ≤ 10000 := by
+  have h1 := hphi c
+  have h2 := hphi c.opp
+  have k1 : pieceCount s c .king = 1 := hk c
+  have k2 : pieceCount s c.opp .king = 1 := hk c.opp
+  unfold C05.materialDiff
+  rw [evalWorths_eq, evalWorths_eq]
+  unfold phi at h1 h2
+  simp only [show (Variation.of s).s = s from rfl, k1, k2]
+  constructor <;> eomega
+
+/-- **EvalBelowMate_all** (since the repair of defect F10).  For EVERY set `R` of states — no legality, no bound on the
+material or on the number of men — every static evaluation at a ply `1 ≤ depth < 2^31` is strictly inside
+`(-mate_in_ply(0), mate_in_ply(0)) = (-11000, 11000)`: a mate score is at most `mate_in_ply(1) = 10900`, a draw is 0, and
+the heuristic score is clamped to `[-9999, 9999]` (`eval.clamp(NEG_INF + 1, POS_INF - 1)` at the end of
+`Evaluator::evaluate`).  So the hypothesis `EvalBelowMate R` of the C03 part D / C07 theorems is always true. -/
+theorem EvalBelowMate_all (R : State → Prop) : EvalBelowMate R := by
+  intro s _ p depth v h1 h2 hev
+  have hm := mateInPly_le h1 h2
+  rw [M0_eq]
+  rcases evaluate_values hev with h | h | h | h <;> rw [h]
+  · constructor <;> eomega
+  · constructor <;> eomega
+  · constructor <;> eomega
+  · have := clampHeuristic_range (evalHeuristic (Variation.of s) p)
+    constructor <;> eomega
+
+/-- **EvalBelowMate_of_potential.**  On the region of the legal positions with at most 16 men and a promotion potential of
+at most 10000 a side, every static evaluation at a ply `1 ≤ depth < 2^31` is strictly inside
+`(-mate_in_ply(0), mate_in_ply(0)) = (-11000, 11000)`.  Before the repair of F10 this needed the root condition (the
+heuristic score is within `0.95·|material| + 1450 ≤ 10950`, `C05_positional_bound` + `materialDiff_le_potential`); now it is
+the instance `R := PotRegion` of `EvalBelowMate_all`. -/
+theorem EvalBelowMate_of_potential : EvalBelowMate PotRegion := EvalBelowMate_all _
+
+/-- the bound for any region whose positions satisfy the root condition -/
+theorem EvalBelowMate_of_potential_region {R : State → Prop} (hR : Region R) (hpot : ∀ s, R s → PotentialOK s) :
+    EvalBelowMate R :=
+  EvalBelowMate.mono (fun s hs => ⟨(hR.good s hs).1, (hR.good s hs).2, hpot s hs⟩) EvalBelowMate_of_potential
+
+/-- everything reachable from a root satisfying the root condition satisfies it -/
+theorem reach_potential (root : State) (hl : LegalPos root = true) (hd : DisjointBoard root.pieces)
+    (hpot : PotentialOK root) : ∀ s, Reach (fun s => s = root) s → PotRegion s := by
+  intro s hs
+  induction hs with
+  | root s h0 => subst h0; exact ⟨hl, hd, hpot⟩
+  | step s r _ hr ih => exact potRegion_region.closed s ih r hr
+
+/-- **C03_at_least_one_report_of_potential.**  `C03_at_least_one_report` with the evaluation bound discharged: for every
+legal root (no stacked pieces) with at most 16 men and a promotion potential of at most 10000 a side — a condition the
+kernel decides on the root alone —, with a legal move, every memory satisfying `MemOK` on the positions reachable from the
+root, every seed, depth limit `≥ 1`, worker counts with at least one worker in the first iteration, and every
+cancellation instant: the search does not panic and reports at least one `BestMove` with a non-empty legal line. -/
+theorem C03_at_least_one_report_of_potential (root : State) (hl : LegalPos root = true) (hd : DisjointBoard root.pieces)
+    (hpot : PotentialOK root) (hmoves : legalMoves root ≠ [])
+    (art : Artifact) (hmem : MemOK (Reach (fun s => s = root)) art) (rng0 : Rng.ChaCha8) (maxDepth : Option Nat)
+    (fuelDepth : Nat) (hlim : 1 ≤ maxDepth.getD fuelDepth) (workersOf : Nat → Nat) (hw : 0 < workersOf 0)
+    (cancelAt : Option Nat) :
+    let out := iterate root rng0 maxDepth art workersOf cancelAt fuelDepth
+    out.panic = Option.none ∧ ∃ ev line, Event.best ev line ∈ out.events ∧ line ≠ [] ∧ LineLegal root line :=
+  have hR : Region (Reach (fun s => s = root)) := Region.reach _ (fun s h => by subst h; exact ⟨hl, hd⟩)
+  C03_at_least_one_report _ hR
+    (EvalBelowMate_of_potential_region hR (fun s hs => (reach_potential root hl hd hpot s hs).2.2))
+    root (Reach.root root rfl) hmoves art hmem rng0 maxDepth fuelDepth hlim workersOf hw cancelAt
+
+end Wee
+
+/-! ## every schedule of the workers (`SearchS`) -/
+
+namespace Wee
+open Wee.Search Wee.Env
+open Wee.C10 (DisjointBoard)
+
+/-- **C03_first_iteration_only_root_inserts, any schedule.**  Let the workers of the first iteration race in ANY
+interleaving `H` of their atomic table operations (`Interleaving`, `Wee/Model/SearchEnv.lean`), on ANY shared table, with
+any seeds and poll offsets.  Then every insert of `H` — of whichever worker, whatever it has read — goes under the root's
+key.  (Each worker guarantees this in every environment: `runWorkerE_rootkey`.) -/
+theorem C03_first_iteration_only_root_inserts_any_schedule (ctx : Ctx) (root : State) (tt : TT.Access)
+    (seeds : List UInt64) (pollsOf : Nat → Nat) (started : List Worker)
+    (hsub : started.Sublist (workersOfIteration 0 Option.none seeds pollsOf)) (H : History)
+    (hI : Interleaving ctx root tt started H) :
+    ∀ p ∈ H, ∀ k e, p.2 = TOp.insert k e → k = (hash ctx.keys root).toNat :=
+  interleaving_guarantee (fun k _ => k = (hash ctx.keys root).toNat)
+    (fun i h env _ => runWorkerE_rootkey env ctx root started[i] tt
+      (mem_workersOfIteration_first (hsub.subset (List.getElem_mem h))).1) hI
+
+/-- **C03_at_least_one_report_any_schedule.**  `C03_at_least_one_report` for EVERY outcome of `analyze_iterative` when in
+every iteration the workers race in an arbitrary interleaving of their atomic table operations (`SearchS`; any poll
+offsets; the sequential model `iterate` is one such outcome, `Interleave_iterate_is_schedule`): the search does not panic
+and reports at least one `BestMove`, whose line is non-empty and legal from the root.  Hypotheses as there.
+Proof of the new part: no worker of the first iteration panics (C04, any schedule) or is interrupted (each counts at most
+`1 + #legal moves` nodes in every environment: `root1E_nodes`), so all are started and joined; all inserts go under the
+root's key; if there is an insert, or the key was there before, the key is in the final table (same-key inserts replace in
+place); otherwise no worker wrote anything, every worker ran as if alone, and worker 0 alone would have inserted
+(`firstWorker_run`) — contradiction. -/
+theorem C03_at_least_one_report_any_schedule {R : State → Prop} (hR : Region R) (hE : EvalBelowMate R) (root : State)
+    (hroot : R root) (hmoves : legalMoves root ≠ [])
+    (art : Artifact) (hmem : MemOK R art) (rng0 : Rng.ChaCha8) (maxDepth : Option Nat) (fuelDepth : Nat)
+    (hlim : 1 ≤ maxDepth.getD fuelDepth) (workersOf : Nat → Nat) (hw : 0 < workersOf 0) (cancelAt : Option Nat)
+    (out : Outcome) (hout : SearchS root rng0 maxDepth art workersOf cancelAt fuelDepth out) :
+    out.panic = Option.none ∧ ∃ ev line, Event.best ev line ∈ out.events ∧ line ≠ [] ∧ LineLegal root line := by
+  obtain ⟨nT, nB, hT, hB, hinv⟩ := hmem.tinv.1
+  have hnp := (C04_search_any_schedule root rng0 maxDepth art workersOf cancelAt fuelDepth nT nB hT hB
+    (hR.good root hroot).1 (hR.good root hroot).2 hmem.depth hinv (hmem.prioritized root hroot) out hout).1
+  have hup : ∀ s, upTo (fun _ => R) (maxDepth.getD fuelDepth) s ↔ R s := upTo_const _
+  have hleg := (C03_search_any_schedule hR.graded (maxDepth.getD fuelDepth) root hroot art
+    (hmem.cf.congr (fun s hs => (hup s).1 hs)) (hmem.tinv.congr (fun s hs => (hup s).1 hs)) rng0 maxDepth workersOf
+    cancelAt fuelDepth (Nat.le_refl _) out hout).2.2
+  obtain ⟨st, hl, rfl⟩ := hout
+  have key : ∀ lim, 1 ≤ lim →
+      LoopS { keys := art.keys.keys, history := hash art.keys.keys root :: art.history, cancelAt := cancelAt } root
+        (hash art.keys.keys root) workersOf lim 0
+        { tt := art.tt, rng := rng0, events := [], nodes := 0, bestEval := Ev.negInf, bestMv := Option.none, polls := 0 } st →
+      ∃ ev line, Event.best ev line ∈ st.events := by
+    intro lim h1 hl'
+    obtain ⟨n, rfl⟩ : ∃ n, lim = n + 1 := ⟨lim - 1, by omega⟩
+    exact loopS_first_reports hR hE
+      { keys := art.keys.keys, history := hash art.keys.keys root :: art.history, cancelAt := cancelAt } root hroot hmoves
+      (legalMoves_few root (hR.good root hroot).1 (hR.good root hroot).2) hmem.cf nT nB hT hB (by simp) workersOf hw n
+      { tt := art.tt, rng := rng0, events := [], nodes := 0, bestEval := Ev.negInf, bestMv := Option.none, polls := 0 }
+      st rfl rfl
+      ⟨⟨hmem.depth, hinv, hmem.prioritized root hroot⟩, hmem.evals⟩ hmem.tinv.2 hl'
+  obtain ⟨ev, line, hmem'⟩ := key _ (by
+    have : (legalMoves root).isEmpty = false := by
+      cases h : legalMoves root with
+      | nil => exact absurd h hmoves
+      | cons _ _ => rfl
+    rw [this]
+    simp only [Bool.false_eq_true, ↓reduceIte]
+    cases maxDepth <;> exact hlim) hl
+  refine ⟨hnp, ev, line, ?_, ?_⟩
+  · dsimp only
+    split
+    · exact List.mem_append_left _ hmem'
+    · exact hmem'
+  · refine hleg ev line ?_
+    dsimp only
+    split
+    · exact List.mem_append_left _ hmem'
+    · exact hmem'
+
+/-- the sequential statement is the instance `out := iterate …` -/
+example {R : State → Prop} (hR : Region R) (hE : EvalBelowMate R) (root : State)
+    (hroot : R root) (hmoves : legalMoves root ≠ [])
+    (art : Artifact) (hmem : MemOK R art) (rng0 : Rng.ChaCha8) (maxDepth : Option Nat) (fuelDepth : Nat)
+    (hlim : 1 ≤ maxDepth.getD fuelDepth) (workersOf : Nat → Nat) (hw : 0 < workersOf 0) (cancelAt : Option Nat) :
+    ∃ ev line, Event.best ev line ∈ (iterate root rng0 maxDepth art workersOf cancelAt fuelDepth).events :=
+  let ⟨_, ev, line, h, _⟩ := C03_at_least_one_report_any_schedule hR hE root hroot hmoves art hmem rng0 maxDepth
+    fuelDepth hlim workersOf hw cancelAt _ (Interleave_iterate_is_schedule root rng0 maxDepth art workersOf cancelAt fuelDepth)
+  ⟨ev, line, h⟩
+
+/-- **`MemOK.searchS`: every outcome of a search under arbitrary schedules hands back a memory satisfying the invariant**
+(`MemOK.iterate` for `SearchS`): no panic (C04), same keys and `TInv` (C03), `depth ≤ max_depth` (C04), and the evaluation
+range — every worker, relying on the others to store only values strictly inside the window, stores only such values
+(`searchNodeE_inside`, rely/guarantee over the global history). -/
+theorem MemOK.searchS {R : State → Prop} (hR : Region R) (hE : EvalBelowMate R) (root : State) (hroot : R root)
+    (art : Artifact) (h : MemOK R art) (rng0 : Rng.ChaCha8) (maxDepth : Option Nat) (workersOf : Nat → Nat)
+    (cancelAt : Option Nat) (fuelDepth : Nat) (hlim : maxDepth.getD fuelDepth ≤ 1000000000) (out : Outcome)
+    (hout : SearchS root rng0 maxDepth art workersOf cancelAt fuelDepth out) :
+    out.panic = Option.none ∧ out.artifact.keys = art.keys ∧ MemOK R out.artifact := by
+  obtain ⟨nT, nB, hT, hB, hinv⟩ := h.tinv.1
+  obtain ⟨hnp, hdep, _, _⟩ := C04_search_any_schedule root rng0 maxDepth art workersOf cancelAt fuelDepth nT nB hT hB
+    (hR.good root hroot).1 (hR.good root hroot).2 h.depth hinv (h.prioritized root hroot) out hout
+  have hup : ∀ s, upTo (fun _ => R) (maxDepth.getD fuelDepth) s ↔ R s := upTo_const _
+  obtain ⟨hk, htt, _⟩ := C03_search_any_schedule hR.graded (maxDepth.getD fuelDepth) root hroot art
+    (h.cf.congr (fun s hs => (hup s).1 hs)) (h.tinv.congr (fun s hs => (hup s).1 hs)) rng0 maxDepth workersOf
+    cancelAt fuelDepth (Nat.le_refl _) out hout
+  refine ⟨hnp, hk, ?_, ?_, hdep, ?_⟩
+  · rw [hk]; exact h.cf
+  · rw [hk]; exact htt.congr (fun s hs => (hup s).2 hs)
+  · exact searchS_evalIn hR hE root hroot art h.cf h.tinv h.evals rng0 maxDepth workersOf cancelAt fuelDepth hlim out hout
+
+end Wee
+
+/-! ## C07: exactly one `bestmove` -/
+
+namespace Wee.Uci
+open Wee Wee.Search
+open Wee.C10 (DisjointBoard)
+
+/-- **C07_writer_exactly_one_always.**  For EVERY search covered by `C03_at_least_one_report` — a root with a legal move in a
+region with `EvalBelowMate`, ANY incoming memory satisfying `MemOK` (fresh, or handed back by any earlier searches:
+`MemOK.iterate`), any seed, any depth limit `≥ 1`, any worker counts with at least one worker in the first iteration, any
+cancellation instant (`stop`, another `go`, `position`, `quit`, the timer, at any moment) — the search thread does not
+panic and the writer thread prints EXACTLY ONE `bestmove` line; it is its last line, and it names a legal move of the
+root whose text resolves back to exactly that move through the UCI token parser (`LegalToken`).  This removes the
+restrictions "fresh memory" and "one worker in the first iteration" of `C07_writer_exactly_one_any_cancel`. -/
+theorem C07_writer_exactly_one_always {R : State → Prop} (hR : Region R) (hE : EvalBelowMate R) (root : State)
+    (hroot : R root) (hmoves : legalMoves root ≠ [])
+    (art : Artifact) (hmem : MemOK R art) (rng0 : Rng.ChaCha8) (maxDepth : Option Nat) (fuelDepth : Nat)
+    (hlim : 1 ≤ maxDepth.getD fuelDepth) (workersOf : Nat → Nat) (hw : 0 < workersOf 0) (cancelAt : Option Nat) :
+    let out := iterate root rng0 maxDepth art workersOf cancelAt fuelDepth
+    out.panic = Option.none ∧
+    ∃ t, bestmoves (writerLines out.events) = [t] ∧ (writerLines out.events).getLast? = some (.bestmove t) ∧
+      LegalToken root t := by
+  intro out
+  obtain ⟨hnp, ev, line, hmem', _, _⟩ := C03_at_least_one_report R hR hE root hroot hmoves art hmem rng0 maxDepth
+    fuelDepth hlim workersOf hw cancelAt
+  have hrep : ReportsLegal root out.events :=
+    iterate_reportsLegal hR root hroot art hmem.cf hmem.tinv rng0 maxDepth workersOf cancelAt fuelDepth
+  have hwr := writer_of_reportsLegal root (hR.good root hroot).1 (hR.good root hroot).2 out.events hrep
+  have hone : (bestmoves (writerLines out.events)).length = 1 := by
+    rw [bestmoves_length]; exact hwr.2.2.2 ⟨ev, line, hmem'⟩
+  refine ⟨hnp, ?_⟩
+  match hb : bestmoves (writerLines out.events), hone with
+  | [t], _ =>
+    have ht : WLine.bestmove t ∈ writerLines out.events := mem_bestmoves.1 (by rw [hb]; exact List.mem_singleton.2 rfl)
+    exact ⟨t, rfl, bestmove_is_last _ t ht, hwr.1 t ht⟩
+
+/-- **C07_writer_exactly_one_any_schedule.**  The same for EVERY outcome `out` of the search when the workers of every
+iteration race in an arbitrary interleaving of their atomic table operations (`SearchS`): no panic, exactly one `bestmove`,
+printed last, naming a legal move of the root. -/
+theorem C07_writer_exactly_one_any_schedule {R : State → Prop} (hR : Region R) (hE : EvalBelowMate R) (root : State)
+    (hroot : R root) (hmoves : legalMoves root ≠ [])
+    (art : Artifact) (hmem : MemOK R art) (rng0 : Rng.ChaCha8) (maxDepth : Option Nat) (fuelDepth : Nat)
+    (hlim : 1 ≤ maxDepth.getD fuelDepth) (workersOf : Nat → Nat) (hw : 0 < workersOf 0) (cancelAt : Option Nat)
+    (out : Outcome) (hout : SearchS root rng0 maxDepth art workersOf cancelAt fuelDepth out) :
+    out.panic = Option.none ∧
+    ∃ t, bestmoves (writerLines out.events) = [t] ∧ (writerLines out.events).getLast? = some (.bestmove t) ∧
+      LegalToken root t := by
+  obtain ⟨hnp, ev, line, hmem', _, _⟩ := C03_at_least_one_report_any_schedule hR hE root hroot hmoves art hmem rng0
+    maxDepth fuelDepth hlim workersOf hw cancelAt out hout
+  have hup : ∀ s, upTo (fun _ => R) (maxDepth.getD fuelDepth) s ↔ R s := upTo_const _
+  have hrep : ReportsLegal root out.events :=
+    searchS_reportsLegal hR.graded (maxDepth.getD fuelDepth) root hroot art (hmem.cf.congr (fun s hs => (hup s).1 hs))
+      (hmem.tinv.congr (fun s hs => (hup s).1 hs)) rng0 maxDepth workersOf cancelAt fuelDepth (Nat.le_refl _) out hout
+  have hwr := writer_of_reportsLegal root (hR.good root hroot).1 (hR.good root hroot).2 out.events hrep
+  have hone : (bestmoves (writerLines out.events)).length = 1 := by
+    rw [bestmoves_length]; exact hwr.2.2.2 ⟨ev, line, hmem'⟩
+  refine ⟨hnp, ?_⟩
+  match hb : bestmoves (writerLines out.events), hone with
+  | [t], _ =>
+    have ht : WLine.bestmove t ∈ writerLines out.events := mem_bestmoves.1 (by rw [hb]; exact List.mem_singleton.2 rfl)
+    exact ⟨t, rfl, bestmove_is_last _ t ht, hwr.1 t ht⟩
+
+/-! ### whole sessions: exactly one `bestmove` per `go` -/
+
+/-- the answers of a session in which every search has at least one worker in its first iteration and a depth limit between
+1 and `10^9` (`go depth 0` owes no `bestmove`): a search answer is `writerLines out.events` for ANY outcome `out` of
+`analyze_iterative` under ANY schedule of its workers (`SearchS`), any seed, cancellation instant, on the incoming memory
+or — if there is none — on any memory satisfying `Fresh`; a book answer as in `sessionSpec`. -/
+def sessionSpecW (Fresh : Artifact → Prop) (K : Keys) (tbl : Book.Table) : Answers Artifact where
+  search mem p d ws m :=
+    ∃ (art : Artifact) (rng0 : Rng.ChaCha8) (workersOf : Nat → Nat) (cancelAt : Option Nat) (fuelDepth : Nat)
+      (out : Outcome),
+      (match mem with | some a => art = a | Option.none => Fresh art) ∧
+      0 < workersOf 0 ∧ 1 ≤ d.getD fuelDepth ∧ d.getD fuelDepth ≤ 1000000000 ∧
+      SearchS p rng0 d art workersOf cancelAt fuelDepth out ∧ ws = writerLines out.events ∧ m = out.artifact
+  book p ws := (sessionSpec Fresh K tbl).book p ws
+
+/-- such a transcript is in particular a transcript of the specification `sessionSpec` of `C07_session_bestmoves` -/
+theorem sessionSpecW_weaken (Fresh : Artifact → Prop) (K : Keys) (tbl : Book.Table) {last pend outs t last' pend'}
+    (h : Transcript (sessionSpecW Fresh K tbl) last pend outs t last' pend') :
+    Transcript (sessionSpec Fresh K tbl) last pend outs t last' pend' :=
+  (Transcript.strengthen (A := sessionSpecW Fresh K tbl) (A' := sessionSpec Fresh K tbl) (fun _ => True) (fun _ => True)
+    (fun _ _ _ _ _ _ _ ⟨art, rng0, workersOf, cancelAt, fuelDepth, out, h1, _, _, _, h5, h6, h7⟩ =>
+      ⟨⟨art, rng0, workersOf, cancelAt, fuelDepth, out, h1, h5, trivial, h6, h7⟩, trivial⟩)
+    (fun _ _ _ hb => hb) h (fun _ _ _ _ => trivial) (fun _ _ => trivial) (fun _ _ _ _ => trivial)).1
+
+/-- `sessionSpecW` with the fact recorded that every search answer carries exactly one `bestmove` -/
+def sessionProvedW (Fresh : Artifact → Prop) (K : Keys) (tbl : Book.Table) : Answers Artifact where
+  search mem p d ws m := (sessionSpecW Fresh K tbl).search mem p d ws m ∧ (bestmoves ws).length = 1
+  book := (sessionSpecW Fresh K tbl).book
+
+/-- **C07_session_exactly_one_always.**  A whole session of the command loop at the model level, from a state without
+running search and without stored artifact, reading ANY list of lines; the book predicate is `lookup(p).is_some()`.  `R` a
+region with `EvalBelowMate`; memories built when none is handed over satisfy `MemOK R`; every `go` is issued in a position
+of `R` that has a legal move.  `t` is ANY transcript for the tagged marks: every search replaced by the
+writer lines of any outcome of `analyze_iterative` — any schedule of the workers, any seed, any cancellation instant, at
+least one worker in the first iteration, depth limit between 1 and `10^9`; the memory handed on from search to search as
+the loop does (so every search but the first of a game runs on RE-USED memory) —, every book mark by a book answer.  Then
+**the number of `bestmove` lines EQUALS the number of `go` lines read**: every `go` is answered exactly once; the memory left
+at the end satisfies `MemOK R` again. -/
+theorem C07_session_exactly_one_always {R : State → Prop} (hR : Region R) (hE : EvalBelowMate R)
+    (Fresh : Artifact → Prop) (hfresh : ∀ a, Fresh a → MemOK R a) (K : Keys) (tbl : Book.Table)
+    (s : Sess) (lines : List String) (s' : Sess) (touts : List (Out × State))
+    (hrun : runT (fun p => (Book.lookup K tbl p).isSome) s lines = some (s', touts))
+    (hpos : ∀ o p, (o, p) ∈ touts → o.isStart = true →
+      R p ∧ legalMoves p ≠ [])
+    (t : List (WLine × State)) (last' : Option Artifact)
+    (htr : Transcript (sessionSpecW Fresh K tbl) Option.none Option.none touts t last' Option.none) :
+    Transcript.nbest t = (processed lines).countP isGo ∧ (∀ m0, last' = some m0 → MemOK R m0) := by
+  have hstr := Transcript.strengthen (A := sessionSpecW Fresh K tbl) (A' := sessionProvedW Fresh K tbl)
+    (fun p => R p ∧ legalMoves p ≠ []) (MemOK R)
+    (by
+      rintro mem p d ws m ⟨hp, hm⟩ hmem ⟨art, rng0, workersOf, cancelAt, fuelDepth, out, hart, hw, hd1, hd2, hout, rfl, rfl⟩
+      have ha : MemOK R art := by
+        cases mem with
+        | none => exact hfresh art hart
+        | some a =>
+          have e : art = a := hart
+          rw [e]; exact hmem a rfl
+      obtain ⟨_, t', hb, _, _⟩ := C07_writer_exactly_one_any_schedule hR hE p hp hm art ha rng0 d fuelDepth hd1
+        workersOf hw cancelAt out hout
+      exact ⟨⟨⟨art, rng0, workersOf, cancelAt, fuelDepth, out, hart, hw, hd1, hd2, hout, rfl, rfl⟩, by rw [hb]; rfl⟩,
+        (MemOK.searchS hR hE p hp art ha rng0 d workersOf cancelAt fuelDepth hd2 out hout).2.2⟩)
+    (fun _ _ _ hb => hb) htr hpos (fun _ e => nomatch e) (fun _ _ _ e => nomatch e)
+  refine ⟨?_, hstr.2.1⟩
+  exact C07_session_exactly_one (A := sessionProvedW Fresh K tbl) (fun mem p d ws m h => h.2)
+    (by
+      rintro p ws ⟨ms, order, i, hi, _, _, _, rfl⟩
+      rfl)
+    _ s lines s' touts hrun t Option.none last' hstr.1
+
+end Wee.Uci
+
+/-! ## the former limit of the statement: defect F10 (over-material positions), found here and repaired
+
+`7k/6pp/NNNNN3/NNNNNNNN/NNNNNNNN/NNNNNNNN/NNNNNNNN/K1NNNNNN b - - 0 1`: Black (king h8, pawns g7 h7) to move against a king
+and 43 knights.  The position is legal (`LegalPos`: one king a side, the side not to move not in check, no pawn on the
+back ranks; `LegalPos` does not bound the number of men) and Black has three legal moves (g6, h6, Kg8).  After each of them
+the HEURISTIC SUM from White's side is 12446 / 12434 / 12421 `≥ mate_in_ply(0) = 11000` (`kn_heuristic`).
+
+**Before the repair** (`/repo` up to commit 1b229f7^) that sum was the static evaluation.  Every child of the root returned a
+value `≥ mate0`, `-value ≤ -mate0 = alpha` never raised alpha, no best move existed, nothing was stored, the walked line was
+empty and — since the repair of F2 turned the `assert!` into `continue` — the iteration reported nothing.  This file then
+contained the kernel-checked theorems `kn_not_evalBelowMate` (`EvalBelowMate` fails on every region containing `knRoot`) and
+`C03_no_report_overmaterial` (depth limit 1, fresh memory, any seed / workers / cancellation: NO `BestMove`, so no
+`bestmove` line), and the run was replayed on the real engine (`position fen …`, `go depth 3`: `info … depth 1 … nodes 4`,
+`depth 2 … nodes 11`, `depth 3 … nodes 26` — the model's node counts — and NO `bestmove`; the same for the queen position
+`6nk/6pp/8/8/8/8/QQQQQQQQ/KQQQQQQQ b - - 0 1`, nodes 6, 22, 49).  A `go` that is never answered violates C07.  Defect F10.
+
+**The repair** (commit 1b229f7, `weechess-engine/src/eval/mod.rs`): the heuristic result of `Evaluator::evaluate` is clamped,
+`eval.clamp(Evaluation(NEG_INF.0 + 1), Evaluation(POS_INF.0 - 1))`; model: `clampHeuristic` in `Wee/Model/Eval.lean`.
+Both theorems about the old model are now FALSE and were removed; in their place: the three successors evaluate to 9999
+(`kn_eval1 … kn_eval3`), `EvalBelowMate` holds on every region (`EvalBelowMate_all`; `kn_evalBelowMate_repaired`), and the
+search of `knRoot` reports and answers with exactly one `bestmove` (`C03_report_overmaterial_repaired`). -/
+
+namespace Wee
+open Wee.Search
+open Wee.C10 (DisjointBoard)
+
+/-- `7k/6pp/NNNNN3/NNNNNNNN/NNNNNNNN/NNNNNNNN/NNNNNNNN/K1NNNNNN b - - 0 1` -/
+def knRoot : State :=
+  { pieces := { wn := 35184372088828, wk := 1, bp := 54043195528445952, bk := 9223372036854775808 },
+    turn := .black, castleW := .noRights, castleB := .noRights, ep := Option.none, halfmove := 0, fullmove := 1 }
+/-- after g7-g6 -/
+def knS1 : State :=
+  { pieces := { wn := 35184372088828, wk := 1, bp := 36099165763141632, bk := 9223372036854775808 },
+    turn := .white, castleW := .noRights, castleB := .noRights, ep := Option.none, halfmove := 0, fullmove := 2 }
+/-- after h7-h6 -/
+def knS2 : State :=
+  { pieces := { wn := 35184372088828, wk := 1, bp := 18155135997837312, bk := 9223372036854775808 },
+    turn := .white, castleW := .noRights, castleB := .noRights, ep := Option.none, halfmove := 0, fullmove := 2 }
+/-- after Kh8-g8 -/
+def knS3 : State :=
+  { pieces := { wn := 35184372088828, wk := 1, bp := 54043195528445952, bk := 4611686018427387904 },
+    turn := .white, castleW := .noRights, castleB := .noRights, ep := Option.none, halfmove := 1, fullmove := 2 }
+
+set_option maxRecDepth 1000000 in
+theorem kn_legal : LegalPos knRoot = true ∧ LegalPos knS1 = true ∧ LegalPos knS2 = true ∧ LegalPos knS3 = true := by
+  decide +kernel
+theorem kn_disjoint : DisjointBoard knRoot.pieces ∧ DisjointBoard knS1.pieces ∧ DisjointBoard knS2.pieces ∧
+    DisjointBoard knS3.pieces := by decide
+set_option maxRecDepth 1000000 in
+theorem kn_check : knRoot.isCheck = false := by decide +kernel
+set_option maxRecDepth 1000000 in
+theorem kn_moves : legalMoves? knRoot = some [(47969, knS1), (49009, knS2), (64502, knS3)] := by decide +kernel
+
+set_option maxRecDepth 1000000 in
+/-- the heuristic sums of the three successors are still far above `mate_in_ply(0) = 11000` (these were the values of
+`evaluate` before the repair) … -/
+theorem kn_heuristic : evalHeuristic (Variation.of knS1) .white = 12446 ∧
+    evalHeuristic (Variation.of knS2) .white = 12434 ∧ evalHeuristic (Variation.of knS3) .white = 12421 := by
+  refine ⟨by decide +kernel, by decide +kernel, by decide +kernel⟩
+
+set_option maxRecDepth 1000000 in
+/-- … but `Evaluator::evaluate` now returns `POS_INF - 1 = 9999` for each of them (and `-9999` from Black's side) -/
+theorem kn_eval1 : evaluate knS1 .white 1 = some 9999 := by decide +kernel
+set_option maxRecDepth 1000000 in
+theorem kn_eval2 : evaluate knS2 .white 1 = some 9999 := by decide +kernel
+set_option maxRecDepth 1000000 in
+theorem kn_eval3 : evaluate knS3 .white 1 = some 9999 := by decide +kernel
+set_option maxRecDepth 1000000 in
+theorem kn_eval_black : evaluate knS1 .black 1 = some (-9999) ∧ evaluate knS2 .black 1 = some (-9999) ∧
+    evaluate knS3 .black 1 = some (-9999) := by
+  refine ⟨by decide +kernel, by decide +kernel, by decide +kernel⟩
+
+theorem kn_moves_ne : legalMoves knRoot ≠ [] := by
+  unfold legalMoves; rw [kn_moves]; exact List.cons_ne_nil _ _
+
+/-- the positions reachable from `knRoot` form a region -/
+theorem kn_region : Region (Reach (fun s => s = knRoot)) :=
+  Region.reach _ (fun s h => by subst h; exact ⟨kn_legal.1, kn_disjoint.1⟩)
+
+/-- **kn_evalBelowMate_repaired** (replaces `kn_not_evalBelowMate`, which stated the opposite of the first conjunct for
+the model before the repair of F10).  The hypothesis `EvalBelowMate` now HOLDS on everything reachable from `knRoot` (as on
+every set of states: `EvalBelowMate_all`), and concretely the three successor evaluations are strictly inside the root
+window `(-11000, 11000)`. -/
+theorem kn_evalBelowMate_repaired : EvalBelowMate (Reach (fun s => s = knRoot)) ∧
+    ∀ s, s = knS1 ∨ s = knS2 ∨ s = knS3 → ∃ v, evaluate s .white 1 = some v ∧ -M0 < v ∧ v < M0 := by
+  refine ⟨EvalBelowMate_all _, fun s hs => ⟨9999, ?_, by rw [M0_eq]; decide, by rw [M0_eq]; decide⟩⟩
+  rcases hs with rfl | rfl | rfl
+  · exact kn_eval1
+  · exact kn_eval2
+  · exact kn_eval3
+
+/-- **C03_report_overmaterial_repaired** (replaces `C03_no_report_overmaterial`, which proved — for the model before the
+repair of F10 — that the search of this position emits NO `BestMove`).  The legal, non-terminal over-material position
+`knRoot`, searched on ANY memory satisfying `MemOK` on the positions reachable from it (e.g. fresh memory of any shape with
+collision-free keys: `MemOK.fresh`), with any seed, any depth limit `≥ 1`, any worker counts with at least one worker in the
+first iteration, any cancellation instant: the search does not panic, reports at least one `BestMove` with a non-empty
+legal line, and the writer prints EXACTLY ONE `bestmove` line, naming a legal move of the root. -/
+theorem C03_report_overmaterial_repaired (art : Artifact) (hmem : MemOK (Reach (fun s => s = knRoot)) art)
+    (rng0 : Rng.ChaCha8) (maxDepth : Option Nat) (fuelDepth : Nat) (hlim : 1 ≤ maxDepth.getD fuelDepth)
+    (workersOf : Nat → Nat) (hw : 0 < workersOf 0) (cancelAt : Option Nat) :
+    let out := iterate knRoot rng0 maxDepth art workersOf cancelAt fuelDepth
+    LegalPos knRoot = true ∧ legalMoves knRoot ≠ [] ∧ out.panic = Option.none ∧
+    (∃ ev line, Event.best ev line ∈ out.events ∧ line ≠ [] ∧ LineLegal knRoot line) ∧
+    ∃ t, Uci.bestmoves (Uci.writerLines out.events) = [t] ∧ Uci.LegalToken knRoot t := by
+  intro out
+  obtain ⟨hnp, hrep⟩ := C03_at_least_one_report _ kn_region (EvalBelowMate_all _) knRoot (Reach.root knRoot rfl)
+    kn_moves_ne art hmem rng0 maxDepth fuelDepth hlim workersOf hw cancelAt
+  obtain ⟨_, t, h1, _, h3⟩ := Uci.C07_writer_exactly_one_always kn_region (EvalBelowMate_all _) knRoot
+    (Reach.root knRoot rfl) kn_moves_ne art hmem rng0 maxDepth fuelDepth hlim workersOf hw cancelAt
+  exact ⟨kn_legal.1, kn_moves_ne, hnp, hrep, t, h1, h3⟩
+
+/-- on fresh memory of any shape, with any game history and any key table that is collision-free on the reachable positions -/
+example (keys : KeyTable) (hcf : CollisionFree keys.keys (Reach (fun s => s = knRoot))) (history : List UInt64)
+    (nT nB : Nat) (hT : 0 < nT) (hB : 0 < nB) (rng0 : Rng.ChaCha8) (workersOf : Nat → Nat) (hw : 0 < workersOf 0)
+    (cancelAt : Option Nat) :
+    ∃ ev line, Event.best ev line ∈ (iterate knRoot rng0 (some 1)
+      { keys := keys, tt := TT.Access.new nT nB, history := history } workersOf cancelAt 64).events :=
+  let ⟨_, _, _, ⟨ev, line, h, _⟩, _⟩ := C03_report_overmaterial_repaired _
+    (MemOK.fresh keys history nT nB hT hB hcf) rng0 (some 1) 64 (Nat.le_refl _) workersOf hw cancelAt
+  ⟨ev, line, h⟩
+
+end Wee
+
+/-! ## non-vacuity
+
+The example of `Wee/Props/C03.lean`: `c03Root` = `k7/p7/P1P5/8/8/6p1/6Pp/7K w - - 0 1` (White's only legal move c6-c7
+stalemates Black), region `c03R` = {root, successor}, toy key table `c03KeyTable` (root ↦ 0, successor ↦ 1),
+`c03_evalBelowMate : EvalBelowMate c03R` (kernel evaluation of the evaluator).  Here with a memory that is NOT fresh, several
+workers, a cancellation that is visible from the first poll, and a history of two searches.  All kernel-checked. -/
+
+namespace Wee
+open Wee.Search
+open Wee.C10 (DisjointBoard)
+
+/-- a re-used memory: the table already holds the root's entry (as an earlier search stored it) -/
+def c03ArtUsed : Artifact := { keys := c03KeyTable, tt := c03Table, history := [hash c03KeyTable.keys c03Succ] }
+
+theorem inside_zero : Inside 0 := ⟨by decide, by decide⟩
+
+/-- `MemOK` holds of it: the four components discharged -/
+theorem c03_memOK_used : MemOK c03R c03ArtUsed :=
+  ⟨c03_collisionFree, c03_table_inv,
+   TT.Access.All.insert (TT.Access.All.new _ _ _) _ _ (show (0 : Nat) ≤ 1 by decide),
+   EvalIn.insert (EvalIn.new 2 4) _ _ inside_zero⟩
+
+theorem c03_moves_ne : legalMoves c03Root ≠ [] := by rw [c03_moves_root]; exact List.cons_ne_nil _ _
+
+/-- **`C03_at_least_one_report` instantiated** on a re-used memory: for every seed, every depth limit `≥ 1` (or none), every
+worker-count function with at least one worker in the first iteration — e.g. 32 —, every cancellation instant — e.g.
+`some 0`: cancelled before the first poll — the search does not panic and reports a non-empty legal line -/
+example (rng0 : Rng.ChaCha8) (maxDepth : Option Nat) (fuelDepth : Nat) (hlim : 1 ≤ maxDepth.getD fuelDepth)
+    (workersOf : Nat → Nat) (hw : 0 < workersOf 0) (cancelAt : Option Nat) :
+    let out := iterate c03Root rng0 maxDepth c03ArtUsed workersOf cancelAt fuelDepth
+    out.panic = Option.none ∧ ∃ ev line, Event.best ev line ∈ out.events ∧ line ≠ [] ∧ LineLegal c03Root line :=
+  C03_at_least_one_report c03R c03_region c03_evalBelowMate c03Root (Or.inl rfl) c03_moves_ne c03ArtUsed
+    c03_memOK_used rng0 maxDepth fuelDepth hlim workersOf hw cancelAt
+
+example : (0 : Nat) < (fun d => if d = 0 then 32 else 1) 0 := by decide
+
+/-- the same on fresh memory of any shape with any history (`MemOK.fresh`) and three workers -/
+example (rng0 : Rng.ChaCha8) (d : Nat) (hd : 1 ≤ d) (history : List UInt64) (nT nB : Nat) (hT : 0 < nT) (hB : 0 < nB)
+    (cancelAt : Option Nat) :
+    ∃ ev line, Event.best ev line ∈ (iterate c03Root rng0 (some d)
+      { keys := c03KeyTable, tt := TT.Access.new nT nB, history := history } (fun _ => 3) cancelAt).events :=
+  let ⟨_, ev, line, h, _⟩ := C03_at_least_one_report c03R c03_region c03_evalBelowMate c03Root (Or.inl rfl) c03_moves_ne
+    _ (MemOK.fresh c03KeyTable history nT nB hT hB c03_collisionFree) rng0 (some d) 64 hd (fun _ => 3)
+    (by decide) cancelAt
+  ⟨ev, line, h⟩
+
+/-- the memory a search hands back satisfies `MemOK` again (`MemOK.iterate` instantiated) -/
+example (rng0 : Rng.ChaCha8) (workersOf : Nat → Nat) (cancelAt : Option Nat) :
+    MemOK c03R (iterate c03Root rng0 (some 5) c03ArtUsed workersOf cancelAt).artifact :=
+  (MemOK.iterate c03_region c03_evalBelowMate c03Root (Or.inl rfl) c03ArtUsed c03_memOK_used rng0 (some 5) workersOf
+    cancelAt 64 (by decide)).2.2
+
+/-- **`C03_report_session` instantiated**: three searches of the example position on one memory — depth 3 with one worker;
+no depth limit with `d + 2` workers in iteration `d`, stopped at once; depth 1 with 4 workers on a search that is stopped
+at its first poll.  Every one of them reports, none panics, each hands back a memory satisfying `MemOK`. -/
+example : ∀ p ∈ sessionOut c03Art
+      [{ root := c03Root, rng0 := Rng.seedFromU64 1, maxDepth := some 3, workersOf := fun _ => 1, cancelAt := Option.none, fuelDepth := 64 },
+       { root := c03Root, rng0 := Rng.seedFromU64 2, maxDepth := Option.none, workersOf := fun d => d + 2, cancelAt := some 0, fuelDepth := 5 },
+       { root := c03Root, rng0 := Rng.seedFromU64 3, maxDepth := some 1, workersOf := fun _ => 4, cancelAt := some 1, fuelDepth := 64 }],
+    p.2.panic = Option.none ∧ MemOK c03R p.2.artifact ∧ ∃ ev line, Event.best ev line ∈ p.2.events := by
+  intro p hp
+  have hall := C03_report_session c03_region c03_evalBelowMate _ c03Art
+    (MemOK.fresh c03KeyTable [] 2 4 (by decide) (by decide) c03_collisionFree)
+    (by intro q hq
+        simp only [List.mem_cons, List.not_mem_nil, or_false] at hq
+        rcases hq with rfl | rfl | rfl <;> exact ⟨Or.inl rfl, by decide⟩) p hp
+  obtain ⟨h1, h2, _, h4⟩ := hall
+  refine ⟨h1, h2, ?_⟩
+  simp only [sessionOut, List.mem_cons, List.not_mem_nil, or_false] at hp
+  rcases hp with rfl | rfl | rfl <;>
+    exact h4 c03_moves_ne (by decide) (by decide)
+
+/-- **`C03_first_iteration_only_root_inserts` instantiated** (it has no hypotheses): whatever the memory -/
+example (art : Artifact) (rng0 : Rng.ChaCha8) (workersOf : Nat → Nat) (cancelAt : Option Nat) :
+    ∃ ops : List TT.Op, (∀ op ∈ ops, ∃ e, op = TT.Op.insert (hash art.keys.keys c03Root).toNat e) ∧
+      (firstWorkers c03Root rng0 art workersOf cancelAt).tt = TT.run art.tt ops :=
+  (C03_first_iteration_only_root_inserts c03Root rng0 art workersOf cancelAt).1
+
+/-- **any schedule, instantiated**: EVERY outcome of the search of the example with two racing workers in every iteration on
+the fresh memory `ilArt` reports (one such outcome, under a schedule that is not sequential, is `InterleaveExample.il_searchS`) -/
+example (rng0 : Rng.ChaCha8) (d : Nat) (hd : 1 ≤ d) (cancelAt : Option Nat) (out : Outcome)
+    (hout : SearchS c03Root rng0 (some d) InterleaveExample.ilArt (fun _ => 2) cancelAt 64 out) :
+    out.panic = Option.none ∧ ∃ ev line, Event.best ev line ∈ out.events ∧ line ≠ [] ∧ LineLegal c03Root line :=
+  C03_at_least_one_report_any_schedule c03_region c03_evalBelowMate c03Root (Or.inl rfl) c03_moves_ne
+    InterleaveExample.ilArt (MemOK.fresh c03KeyTable [] 2 4 (by decide) (by decide) c03_collisionFree) rng0 (some d) 64 hd
+    (fun _ => 2) (by decide) cancelAt out hout
+
+/-! ### the evaluation bound from the root condition -/
+
+set_option maxRecDepth 1000000 in
+/-- the example root satisfies the root condition (three pawns a side: potential 2700) … -/
+theorem c03_potential : PotentialOK c03Root := by decide +kernel
+
+/-- … every root satisfying C06's `RootBounded` does … -/
+theorem PotentialOK_of_rootBounded {s : State} (h : C06.RootBounded s) : PotentialOK s :=
+  ⟨h.1, fun c => Nat.le_of_lt (Nat.lt_of_lt_of_le (h.2 c) (by decide))⟩
+
+set_option maxRecDepth 1000000 in
+/-- … but the start position does not (potential 10400 a side: nine queens are reachable): for it `EvalBelowMate` stays an
+explicit hypothesis -/
+example : ¬ PotentialOK c02Start := by decide +kernel
+
+theorem c03_reach_sub : ∀ s, Reach (fun s => s = c03Root) s → c03R s := by
+  intro s h
+  induction h with
+  | root s h0 => exact Or.inl h0
+  | step s r _ hr ih =>
+    rcases ih with rfl | rfl
+    · rw [c03_moves_root, List.mem_singleton] at hr; subst hr; exact Or.inr rfl
+    · rw [c03_moves_succ] at hr; cases hr
+
+/-- `C03_at_least_one_report_of_potential` instantiated: no evaluation hypothesis left -/
+example (rng0 : Rng.ChaCha8) (d : Nat) (hd : 1 ≤ d) (workersOf : Nat → Nat) (hw : 0 < workersOf 0) (cancelAt : Option Nat) :
+    let out := iterate c03Root rng0 (some d) c03ArtUsed workersOf cancelAt 64
+    out.panic = Option.none ∧ ∃ ev line, Event.best ev line ∈ out.events ∧ line ≠ [] ∧ LineLegal c03Root line :=
+  C03_at_least_one_report_of_potential c03Root c03_legal_root (by decide) c03_potential c03_moves_ne
+    c03ArtUsed
+    ⟨c03_memOK_used.cf.congr c03_reach_sub, c03_memOK_used.tinv.congr c03_reach_sub, c03_memOK_used.depth,
+     c03_memOK_used.evals⟩ rng0 (some d) 64 hd workersOf hw cancelAt
+
+end Wee
+
+namespace Wee.Uci
+open Wee Wee.Search
+
+/-- **`C07_writer_exactly_one_always` instantiated**: on the re-used memory, with 8 workers in the first iteration and
+whenever `Stop` arrives, the writer prints exactly `bestmove c6c7`, as its last line -/
+example (rng0 : Rng.ChaCha8) (d : Nat) (hd : 1 ≤ d) (cancelAt : Option Nat) :
+    let out := iterate c03Root rng0 (some d) c03ArtUsed (fun _ => 8) cancelAt 64
+    out.panic = Option.none ∧ bestmoves (writerLines out.events) = ["c6c7"] ∧
+      (writerLines out.events).getLast? = some (.bestmove "c6c7") := by
+  intro out
+  obtain ⟨hnp, t, h1, h2, h3⟩ := C07_writer_exactly_one_always c03_region c03_evalBelowMate c03Root (Or.inl rfl)
+    c03_moves_ne c03ArtUsed c03_memOK_used rng0 (some d) 64 hd (fun _ => 8) (by decide) cancelAt
+  have := c03_legalToken t h3
+  subst this
+  exact ⟨hnp, h1, h2⟩
+
+/-- **`C07_session_exactly_one_always` instantiated** on the session of `Wee/Props/C07Compose.lean`
+(`position fen k7/p7/P1P5/8/8/6p1/6Pp/7K w - - 0 1`, `go depth 1`, `isready`, `go depth 2`, `stop`; the second search runs on
+the memory the first one handed back).  The session has transcripts of `sessionSpecW` (one is built by hand from the
+sequential outcomes), and EVERY transcript — whatever the seeds, schedules, worker counts `≥ 1`, cancellation instants of
+the two searches and however the writer lines interleave with `readyok` — contains exactly two `bestmove` lines. -/
+example (K : Keys) :
+    (∃ t last', Transcript (sessionSpecW (· = c03Art) K ∅) Option.none Option.none exTouts t last' Option.none) ∧
+    ∀ t last', Transcript (sessionSpecW (· = c03Art) K ∅) Option.none Option.none exTouts t last' Option.none →
+      Transcript.nbest t = 2 := by
+  constructor
+  · have hs1 : (sessionSpecW (· = c03Art) K ∅).search Option.none c03Root (some 1)
+        (writerLines (iterate c03Root default (some 1) c03Art (fun _ => 1) Option.none 64).events)
+        (iterate c03Root default (some 1) c03Art (fun _ => 1) Option.none 64).artifact :=
+      ⟨c03Art, default, fun _ => 1, Option.none, 64, _, rfl, by decide, by decide, by decide,
+        Interleave_iterate_is_schedule c03Root default (some 1) c03Art (fun _ => 1) Option.none 64, rfl, rfl⟩
+    have hs2 : (sessionSpecW (· = c03Art) K ∅).search
+        (some (iterate c03Root default (some 1) c03Art (fun _ => 1) Option.none 64).artifact) c03Root (some 2)
+        (writerLines (iterate c03Root default (some 2)
+          (iterate c03Root default (some 1) c03Art (fun _ => 1) Option.none 64).artifact (fun _ => 1) Option.none 64).events)
+        (iterate c03Root default (some 2)
+          (iterate c03Root default (some 1) c03Art (fun _ => 1) Option.none 64).artifact (fun _ => 1) Option.none 64).artifact :=
+      ⟨_, default, fun _ => 1, Option.none, 64, _, rfl, by decide, by decide, by decide,
+        Interleave_iterate_is_schedule c03Root default (some 2) _ (fun _ => 1) Option.none 64, rfl, rfl⟩
+    exact ⟨_, _, .start (some 1) Option.none false c03Root (fun h => nomatch h) hs1
+      (Transcript.emit_all _ (.line "readyok" c03Root (.join c03Root
+        (.start (some 2) Option.none true c03Root (fun _ => rfl) hs2
+          (Transcript.emit_all _ (.join c03Root (.done _ _)))))))⟩
+  · intro t last' htr
+    cases hrun : runT (fun p => (Book.lookup K (∅ : Book.Table) p).isSome) Sess.init exLines with
+    | none => have := ex_runT K; rw [hrun] at this; cases this
+    | some r =>
+      obtain ⟨s', touts⟩ := r
+      have ht : touts = exTouts := by have := ex_runT K; rw [hrun] at this; exact Option.some.inj this
+      subst ht
+      have hpos : ∀ o p, (o, p) ∈ exTouts → o.isStart = true →
+          c03R p ∧ legalMoves p ≠ [] := by
+        intro o p hm _
+        have hp : p = c03Root := by
+          simp only [exTouts, List.mem_cons, Prod.mk.injEq, List.not_mem_nil, or_false] at hm
+          rcases hm with ⟨_, rfl⟩ | ⟨_, rfl⟩ | ⟨_, rfl⟩ | ⟨_, rfl⟩ | ⟨_, rfl⟩ <;> rfl
+        subst hp
+        exact ⟨Or.inl rfl, c03_moves_ne⟩
+      have h := (C07_session_exactly_one_always c03_region c03_evalBelowMate (· = c03Art)
+        (by rintro a rfl; exact MemOK.fresh c03KeyTable [] 2 4 (by decide) (by decide) c03_collisionFree)
+        K ∅ Sess.init exLines s' exTouts hrun hpos t last' htr).1
+      have hc : (processed exLines).countP isGo = 2 := by decide
+      rw [hc] at h
+      exact h
+
+end Wee.Uci
